@@ -131,102 +131,172 @@ def r2_r3(ctx, L, hs):
     if not exits:
         return
     ex = exits[0]
-    conds = enclosing_conditions(L.epoch["body"], ex)
+    pcs = e4.path_conditions(c, L.epoch["body"], ex) or []
     descr = []
     have = {"some-threshold": False, "epoch-gt-threshold": False, "increasing": False}
     th_inner = None
     inc_h = None
-    gt_if = None
-    for (ifn, br) in conds or []:
-        cn = strip(ifn["c"])
-        if cn.get("k") == "letx" and e4.local_hid(cn["init"]) == th_outer and br == "th" and e4.arm_variant({"pat": cn["pat"]})[0].endswith("Some"):
+    inc_item = None
+    matched = 0
+    for n_item, item in enumerate(pcs):
+        cn = strip(item["c"])
+        pol = item["pol"]
+        eff = cn if pol else e4.negate(cn)
+        if cn.get("k") == "letx" and e4.local_hid(cn["init"]) == th_outer and pol and e4.arm_variant({"pat": cn["pat"]})[0].endswith("Some") and pat_binds(cn["pat"]):
             have["some-threshold"] = True
             th_inner = pat_binds(cn["pat"])[0][1]
-        elif cn.get("k") == "bin" and cn["op"] in ("Gt", "Ge", "Lt", "Le") and th_inner is not None and br == "th" and _is_epoch_gt_threshold(c, cn, L.epoch_var, th_inner):
+            matched += 1
+        elif eff is not None and eff.get("k") == "bin" and eff["op"] in ("Gt", "Ge", "Lt", "Le") and th_inner is not None and _is_epoch_gt_threshold(c, eff, L.epoch_var, th_inner):
             have["epoch-gt-threshold"] = True
-            gt_if = ifn
-        elif cn.get("k") == "local" and cn["name"] == "increasing" and br == "th":
+            matched += 1
+        elif eff is not None and eff.get("k") == "local" and c.ty(eff) == "bool" and n_item == len(pcs) - 1:
             have["increasing"] = True
-            inc_h = cn["hid"]
-        descr.append("%s[%s]" % (short(pretty(cn), 40), br))
+            inc_h = eff["hid"]
+            inc_item = item
+            matched += 1
+        descr.append("%s%s[%s]" % ("" if pol else "!", short(pretty(cn), 40), item["kind"]))
     for k, v in have.items():
         ctx.check("R13.2", "stop-guard:" + k, v, "stop-not-guarded-by:" + k, c.loc(fn, ex), "break under %s" % k,
                   "the epoch loop is left under [%s]; the contract requires Some(threshold) && epoch > threshold && increasing" % "; ".join(descr))
-    extra = [d for d in descr if not any(t in d for t in ("threshold", "increasing"))]
-    n_unrelated = len(conds or []) - sum(1 for v in have.values() if v)
-    inner = None
-    for (ifn, br) in conds or []:
-        cn = strip(ifn["c"])
-        if cn.get("k") == "local" and cn["name"] == "increasing":
-            inner = ifn
+    n_unrelated = len(pcs) - matched
     must = False
-    if inner is not None:
-        o = e4.outcomes(c, inner["th"], lambda n: False)
+    if inc_item is not None:
+        if inc_item["kind"] == "if":
+            br_ = inc_item["node"]["th"] if inc_item["pol"] else inc_item["node"]["el"]
+            o = e4.outcomes(c, br_, lambda n: False)
+        else:
+            # guard clause `if !increasing { continue }`: what follows it in the same block must always leave the loop
+            o = set()
+            for b_ in walk(L.epoch["body"]):
+                if b_.get("k") == "block" and any(strip(s_) is inc_item["node"] or s_ is inc_item["node"] for s_ in b_["stmts"]):
+                    ix = [k_ for k_, s_ in enumerate(b_["stmts"]) if strip(s_) is inc_item["node"] or s_ is inc_item["node"]][0]
+                    rest = list(b_["stmts"][ix + 1:]) + ([b_["tail"]] if b_["tail"] is not None else [])
+                    o = e4.Paths(c, lambda n: False).seq_nodes(rest)
         must = bool(o) and all(k == ("break", L.epoch["loop_id"]) for (k, _) in o)
     ctx.check("R13.2", "stop-is-unconditional-once-detected", n_unrelated == 0 and must, "stop-depends-on-unrelated-condition:" + ";".join(descr)[:120], c.loc(fn, ex),
               "once the window is increasing the loop is always left",
-              "the `break` is additionally guarded (enclosing conditions: %s) or not reached on every path of `if increasing {..}`: training can "
+              "the `break` is additionally guarded (conditions on the way: %s) or not reached on every path once `increasing` holds: training can "
               "continue past the first epoch at which the stopping condition holds" % "; ".join(descr))
     # the stop decision itself must be reached in every epoch: no `continue`/exit on a path before it
-    outer_if = conds[0][0] if conds else None
-    if outer_if is not None:
-        o2 = e4.outcomes(c, L.epoch["body"], lambda n: n is outer_if)
+    first = pcs[0]["node"] if pcs else None
+    if first is not None:
+        o2 = e4.outcomes(c, L.epoch["body"], lambda n: n is first)
         skipped = sorted({str(k[0]) for (k, cnt) in o2 if cnt == 0})
-        ctx.check("R13.2", "stop-check-reached-every-epoch", not skipped, "stop-check-skipped-on:" + ",".join(skipped), c.loc(fn, outer_if),
+        ctx.check("R13.2", "stop-check-reached-every-epoch", not skipped, "stop-check-skipped-on:" + ",".join(skipped), c.loc(fn, first),
                   "every path through an epoch evaluates the stopping condition",
                   "some paths through an epoch (ending in %s) never evaluate the stopping condition: training can run past the epoch at which it holds" % skipped)
     # evaluated after this epoch's pushes
     top = None
     for i, s in enumerate(L.epoch_body):
-        if any(y is ex for y in walk(s)):
+        if first is not None and any(y is first for y in walk(s)):
             top = i
     push_idx = [i for i, s in enumerate(L.epoch_body) if any(is_push(hs["train_loss"])(y) or is_push(hs["val_loss"])(y) for y in walk(s))]
     ctx.check("R13.2", "decided-after-recording", top is not None and push_idx and top > max(push_idx), "stop-decided-before-recording", c.loc(fn, ex), "the stop decision follows this epoch's pushes")
     if inc_h is None or th_inner is None:
         return
-    # R13.3 window
-    blk = gt_if["th"] if gt_if is not None else None
-    if blk is None:
-        return
-    st = top_stmts_of(blk)
-    lets = {s["pat"]["name"]: s for s in st if s.get("k") == "let" and s["pat"].get("k") == "bind"}
-    hist = lets.get("history")
+    # R13.3 window.  Immutable aliases of the threshold (`let window = threshold as usize`) denote the same number.
+    T_alias = {th_inner}
+    for _ in range(3):
+        for s in walk(L.epoch["body"]):
+            if s.get("k") == "let" and s["pat"].get("k") == "bind" and "Mut)" not in str(s["pat"].get("mode")) and s.get("init") is not None:
+                i_ = strip(s["init"])
+                while i_ is not None and i_.get("k") == "cast":
+                    i_ = strip(i_["x"])
+                if e4.local_hid(i_) in T_alias:
+                    T_alias.add(s["pat"]["hid"])
+
+    def is_T(n):
+        n = strip(n)
+        while n is not None and n.get("k") == "cast":
+            n = strip(n["x"])
+        return e4.local_hid(n) in T_alias
+    envT = {h: Rat.atom("T") for h in T_alias}
+    hist = None
+    for s in walk(L.epoch["body"]):
+        if s.get("k") == "let" and s["pat"].get("k") == "bind" and s.get("init") is not None:
+            names, base = chain_of(s["init"])
+            if names == ["iter", "rev", "take", "collect"] and e4.local_hid(base) == hs["val_loss"]:
+                hist = s
     okw = False
     if hist:
-        names, base = chain_of(hist["init"])
         tk = [x for x in walk(hist["init"]) if x.get("k") == "mcall" and x["name"] == "take"]
-        okw = names == ["iter", "rev", "take", "collect"] and e4.local_hid(base) == hs["val_loss"] and tk and e4.local_hid(strip(tk[0]["args"][0])["x"] if strip(tk[0]["args"][0]).get("k") == "cast" else tk[0]["args"][0]) == th_inner
+        okw = bool(tk) and is_T(tk[0]["args"][0])
     ctx.check("R13.3", "window-is-last-threshold-losses", okw, "window:" + (short(pretty(hist["init"]), 70) if hist else "?"), c.loc(fn, hist["init"]) if hist else c.loc(fn), "val_loss.iter().rev().take(threshold)")
-    inc = lets.get("increasing")
-    ctx.check("R13.3", "increasing-starts-true", inc is not None and e4.lit_value(inc["init"]) == "true", "increasing-initial-value", c.loc(fn), "increasing = true")
-    loops = [s for s in st if s.get("k") == "for"]
+    inc = None
+    inc_block = None
+    for b_ in walk(L.epoch["body"]):
+        if b_.get("k") == "block":
+            for s in b_["stmts"]:
+                if s.get("k") == "let" and s["pat"].get("k") == "bind" and s["pat"]["hid"] == inc_h:
+                    inc, inc_block = s, b_
+    hh = hist["pat"]["hid"] if hist else None
+
+    def pair_test(cn, iv_h):
+        """is cn the test `history[i] <= history[i+1]` (returns 'le') or its strict complement (returns 'gt')?"""
+        cn = strip(cn)
+        neg = False
+        while cn is not None and cn.get("k") == "un" and cn["op"] == "Not":
+            cn = strip(cn["x"])
+            neg = not neg
+        if cn is None or cn.get("k") != "bin" or hh is None:
+            return None
+        N2 = e1.Norm(c, {iv_h: Rat.atom("i")})
+
+        def idx_of(n):
+            n = strip(n)
+            if n is not None and n.get("k") == "index" and e4.local_hid(n["b"]) == hh:
+                return N2.norm(n["i"])
+            return None
+        li, ri = idx_of(cn["l"]), idx_of(cn["r"])
+        op = cn["op"]
+        if li == Rat.atom("i") + 1 and ri == Rat.atom("i"):
+            li, ri = ri, li
+            op = {"Le": "Ge", "Ge": "Le", "Lt": "Gt", "Gt": "Lt"}.get(op, op)
+        if not (li == Rat.atom("i") and ri == Rat.atom("i") + 1):
+            return None
+        if op == "Le":
+            return "gt" if neg else "le"
+        if op == "Gt":
+            return None if neg else "gt"   # !(a > b) is not `a <= b` for NaN; the loop form below requires `<=` itself
+        return None
+
+    def range_ok(it):
+        it = strip(it)
+        if it is None or it.get("k") != "struct" or it["path"] != "std::ops::Range":
+            return False, "?"
+        fs = dict((a, b) for a, b in it["fs"])
+        N = e1.Norm(c, envT)
+        return (str(N.norm(fs["start"])) == "0" and N.norm(fs["end"]) == Rat.atom("T") - 1), str(N.norm(fs["end"]))
     okl = False
     got = "?"
-    if len(loops) == 1 and hist:
-        lp = loops[0]
-        it = strip(lp["iter"])
-        iv = pat_binds(lp["pat"])[0]
-        if it.get("k") == "struct" and it["path"] == "std::ops::Range":
-            fs = dict((a, b) for a, b in it["fs"])
-            N = e1.Norm(c, {th_inner: Rat.atom("T")})
-            rng_ok = str(N.norm(fs["start"])) == "0" and N.norm(fs["end"]) == Rat.atom("T") - 1
+    init_inc = strip(inc["init"]) if inc is not None and inc.get("init") is not None else None
+    if init_inc is not None and init_inc.get("k") == "mcall" and init_inc["name"] == "all" and hist:
+        # increasing = (0..T-1).all(|k| history[k] > history[k+1])   (or the negated `<=`)
+        cl = strip(init_inc["args"][0])
+        rok, rtxt = range_ok(init_inc["recv"])
+        others = [x for x in walk(L.epoch["body"]) if x.get("k") in ("assign", "assignop") and e4.local_hid(x["l"]) == inc_h]
+        if cl is not None and cl.get("k") == "closure" and len(cl["params"]) == 1 and pat_binds(cl["params"][0]):
+            bd = strip(cl["body"])
+            t_ = pair_test(bd, pat_binds(cl["params"][0])[0][1])
+            okl = rok and t_ == "gt" and not others
+            got = "range 0..%s, all(%s)" % (rtxt, short(pretty(bd), 50))
+        ctx.ok("R13.3", "increasing-starts-true", "`increasing` is the conjunction over the window (all)", c.loc(fn, inc))
+    else:
+        ctx.check("R13.3", "increasing-starts-true", inc is not None and e4.lit_value(inc["init"]) == "true", "increasing-initial-value", c.loc(fn), "increasing = true")
+        loops = [s for s in (inc_block["stmts"] if inc_block else []) if s.get("k") == "for"]
+        if len(loops) == 1 and hist and inc is not None:
+            lp = loops[0]
+            iv = pat_binds(lp["pat"])[0]
+            rok, rtxt = range_ok(lp["iter"])
             ifs = [x for x in walk(lp["body"]) if x.get("k") == "if"]
             if len(ifs) == 1:
                 cn = strip(ifs[0]["c"])
-                N2 = e1.Norm(c, {iv[1]: Rat.atom("i")})
-                hh = hist["pat"]["hid"]
-                def idx_of(n):
-                    n = strip(n)
-                    if n.get("k") == "index" and e4.local_hid(n["b"]) == hh:
-                        return N2.norm(n["i"])
-                    return None
-                li, ri = idx_of(cn.get("l", {})) if cn.get("k") == "bin" else None, idx_of(cn.get("r", {})) if cn.get("k") == "bin" else None
-                cmp_ok = cn.get("k") == "bin" and cn["op"] == "Le" and li == Rat.atom("i") and ri == Rat.atom("i") + 1
-                asg2 = [x for x in walk(ifs[0]["th"]) if x.get("k") == "assign" and e4.local_hid(x["l"]) == inc["pat"]["hid"] and e4.lit_value(x["r"]) == "false"]
-                other_asg = [x for x in walk(blk) if x.get("k") == "assign" and e4.local_hid(x["l"]) == inc["pat"]["hid"] and x not in asg2]
-                okl = rng_ok and cmp_ok and len(asg2) == 1 and not other_asg and ifs[0]["el"] is None
-                got = "range 0..%s, test %s" % (N.norm(fs["end"]), short(pretty(cn), 50))
-    ctx.check("R13.3", "adjacent-pairs-strictly-increasing", okl, "window-test:" + short(got, 80), c.loc(fn, loops[0]) if loops else c.loc(fn),
+                t_ = pair_test(cn, iv[1])
+                asg2 = [x for x in walk(ifs[0]["th"]) if x.get("k") == "assign" and e4.local_hid(x["l"]) == inc_h and e4.lit_value(x["r"]) == "false"]
+                other_asg = [x for x in walk(L.epoch["body"]) if x.get("k") in ("assign", "assignop") and e4.local_hid(x["l"]) == inc_h and x not in asg2]
+                okl = rok and t_ == "le" and len(asg2) == 1 and not other_asg and ifs[0]["el"] is None
+                got = "range 0..%s, test %s" % (rtxt, short(pretty(cn), 50))
+    ctx.check("R13.3", "adjacent-pairs-strictly-increasing", okl, "window-test:" + short(got, 80), c.loc(fn, inc) if inc is not None else c.loc(fn),
               "for i in 0..threshold-1: history[i] <= history[i+1] clears `increasing` (history is newest first)",
               "the window test is `%s`; the contract is: stop iff every newer loss is strictly greater than the next older one over the last `threshold` losses" % got)
 
